@@ -695,8 +695,9 @@ def content_any(T, v, ch):
         return c, False
     if k in STRINGS:
         c = str_octets(k, v)
-        if len(c) > 0 and ch.pick(2, 'segmented', ['primitive', 'constructed']) == 1:
-            return seg_tree(c, 4, ch, 1), True
+        if ch.pick(2, 'segmented', ['primitive', 'constructed']) == 1:
+            # 8.7.3: zero or more segments; an empty string may be constructed with no segment at all
+            return (seg_tree(c, 4, ch, 1) if c else b''), True
         return c, False
     if k in ('SEQUENCE', 'SET'):
         chunks = []
